@@ -215,6 +215,9 @@ class MaskFlow(MustAnalysis):
                 # statistics kept on self (label counts, fallback mean/std):
                 # every read of a per-sample array inside has to be masked
                 raw = self.unmasked_reads(stmt.value, state.tokens)
+                if not raw and self.expr_state(stmt.value, state.tokens) == "stat":
+                    self.sinks += 1
+                    self._report(stmt, stmt.value, state, f"self.{t.attr} keeps a value computed from a statistic over ALL rows")
                 if raw:
                     self.sinks += 1
                     self._report(stmt, raw[0], state, f"statistic self.{t.attr} computed from all rows")
